@@ -94,13 +94,13 @@ Proof.
 Qed.
 
 (* ------------------------------------------------------------------ the result the spec prescribes *)
-Definition walk_spec (t : tres) (r : list Z) : option (list Z * list Z) :=
-  match spec_text t with Some x => Some (x, r) | None => None end.
+Definition walk_spec (fd : Z -> list Z) (t : tres) (r : list Z) : option (list Z * list Z) :=
+  match spec_text_fd fd t with Some x => Some (x, r) | None => None end.
 
 (* ------------------------------------------------------------------ leaves *)
 Section Leaves.
+  Variable fd : Z -> list Z.
   Variable o : Z.
-  Let fd := f64_exact_lexeme.
 
   Lemma ws_bool bs : walk_scalar fd o T_BOOL bs =
     match bs with b :: r => Some (if b =? 1 then lit_true else lit_false, r) | [] => None end.
@@ -126,17 +126,17 @@ Section Leaves.
   Proof. reflexivity. Qed.
 
   Lemma walk_scalar_ok v t r : wf v = true -> is_num_scalar t && (type_of v =? t) = true ->
-    walk_scalar fd o t (encode v ++ r) = walk_spec (json_of o (DScalar t) v) r.
+    walk_scalar fd o t (encode v ++ r) = walk_spec fd (json_of o (DScalar t) v) r.
   Proof.
     intros Hw Ht. apply andb_true_iff in Ht. destruct Ht as [Hn Ht]. apply Z.eqb_eq in Ht. subst t.
     destruct v; cbn [type_of] in *; try discriminate Hn; cbn [encode wf] in Hw |- *;
-      unfold walk_spec, spec_text; cbn [json_of jexp_finite to_json json_print].
+      unfold walk_spec, spec_text_fd; cbn [json_of jexp_finite to_json_fd json_print].
     - rewrite ws_bool. cbn [app]. destruct (raw =? 1); reflexivity.
     - rewrite ws_byte. rewrite (rd_int_sb 1 8) by (try lia; try reflexivity; exact Hw). reflexivity.
     - rewrite ws_i16. rewrite (rd_int_sb 2 16) by (try lia; try reflexivity; exact Hw). reflexivity.
     - rewrite ws_i32. rewrite (rd_int_sb 4 32) by (try lia; try reflexivity; exact Hw). reflexivity.
     - rewrite ws_i64. rewrite (rd_int_sb 8 64) by (try lia; try reflexivity; exact Hw).
-      destruct (o_int642string o); cbn [jexp_finite to_json json_print]; [rewrite quote_fmt_int|]; reflexivity.
+      destruct (o_int642string o); cbn [jexp_finite to_json_fd json_print]; [rewrite quote_fmt_int|]; reflexivity.
     - rewrite ws_double. unfold rd_uint. rewrite take_enc_int, dec_uint_enc_int.
       apply andb_true_iff in Hw. destruct Hw as [H0 H1]. apply Z.leb_le in H0. apply Z.ltb_lt in H1.
       rewrite Z.mod_small by (change (256 ^ Z.of_nat 8) with (2 ^ 64); lia).
@@ -144,13 +144,13 @@ Section Leaves.
   Qed.
 
   Lemma walk_string_ok s b r : wf (VString s) = true ->
-    walk_string o b (encode (VString s) ++ r) = walk_spec (json_of o (DString b) (VString s)) r.
+    walk_string o b (encode (VString s) ++ r) = walk_spec fd (json_of o (DString b) (VString s)) r.
   Proof.
     intros Hw. cbn [wf] in Hw. apply andb_true_iff in Hw. destruct Hw as [Hb Hl]. apply Z.ltb_lt in Hl.
     cbn [encode]. rewrite <- app_assoc. unfold walk_string. rewrite rd_bytes_enc by exact Hl.
-    unfold walk_spec, spec_text. cbn [json_of].
-    destruct b; cbn [andb jexp_finite to_json json_print]; [|reflexivity].
-    destruct (o_no_base64 o); cbn [negb jexp_finite to_json json_print]; [reflexivity|].
+    unfold walk_spec, spec_text_fd. cbn [json_of].
+    destruct b; cbn [andb jexp_finite to_json_fd json_print]; [|reflexivity].
+    destruct (o_no_base64 o); cbn [negb jexp_finite to_json_fd json_print]; [reflexivity|].
     rewrite quote_plain; [reflexivity|]. apply b64_encode_plain. apply bytes_okb_Forall. exact Hb.
   Qed.
 
@@ -240,7 +240,7 @@ Proof.
 Qed.
 
 (* ------------------------------------------------------------------ comma bookkeeping against the canonical printer *)
-Definition pm (m : list Z * jexp) : list Z * json := (fst m, to_json (snd m)).
+Definition pm (fd : Z -> list Z) (m : list Z * jexp) : list Z * json := (fst m, to_json_fd fd (snd m)).
 Definition mem_finite (ms : list (list Z * jexp)) : bool := forallb (fun m => jexp_finite (snd m)) ms.
 
 (* what the printer writes after the opening brace / bracket: with the comma flag set, every item is preceded by a comma *)
@@ -282,9 +282,9 @@ Qed.
 
 (* ------------------------------------------------------------------ one lemma per loop *)
 Section LoopLemmas.
+  Variable fd : Z -> list Z.
   Variable o : Z.
   Variable rec : tdesc -> list Z -> option (list Z * list Z).
-  Let fd := f64_exact_lexeme.
 
   (* the spec's step on one struct field, value mapping off *)
   Definition fstep (fs : list (fmeta * tdesc)) (iv : Z * tval) : fres :=
@@ -299,7 +299,7 @@ Section LoopLemmas.
     end.
 
   Definition rec_ok (d : tdesc) (x : tval) : Prop :=
-    forall r, rec d (encode x ++ r) = walk_spec (json_of o d x) r.
+    forall r, rec d (encode x ++ r) = walk_spec fd (json_of o d x) r.
 
   Definition field_ok (fs : list (fmeta * tdesc)) (iv : Z * tval) : Prop :=
     in_sb 16 (fst iv) = true /\
@@ -316,7 +316,7 @@ Section LoopLemmas.
     | inr _ => None
     | inl ms =>
       if mem_finite ms
-      then (if bm_missing fs (bm_run fs (map fst vs) bm) then None else Some (obj_tail c (map pm ms), r))
+      then (if bm_missing fs (bm_run fs (map fst vs) bm) then None else Some (obj_tail c (map (pm fd) ms), r))
       else None
     end.
   Proof.
@@ -332,7 +332,7 @@ Section LoopLemmas.
       rewrite (rd_int_sb 2 16) by (try lia; try reflexivity; exact Hid).
       cbn [map members_of fst bm_run]. unfold fstep at 1. cbn [fst snd].
       destruct (find_field fs id) as [f|] eqn:Ef.
-      + rewrite Hx. unfold walk_spec, spec_text.
+      + rewrite Hx. unfold walk_spec, spec_text_fd.
         destruct (json_of o (snd f) x) as [e|e|cc]; [|reflexivity|reflexivity].
         destruct (jexp_finite e) eqn:Efin.
         * rewrite IH by (try exact HF'; cbn in Hfuel; lia).
@@ -352,14 +352,14 @@ Section LoopLemmas.
     walk_elems rec (length es) de c (flat_map encode es ++ r) =
     match all_ok (map (json_of o de) es) with
     | inr _ => None
-    | inl xs => if forallb jexp_finite xs then Some (arr_tail c (map to_json xs), r) else None
+    | inl xs => if forallb jexp_finite xs then Some (arr_tail c (map (to_json_fd fd) xs), r) else None
     end.
   Proof.
     induction es as [|x es IH]; intros c r HF.
     - cbn [length walk_elems flat_map app map all_ok forallb]. rewrite arr_tail_nil. reflexivity.
     - inversion HF as [|? ? Hx HF']; subst.
       cbn [length walk_elems flat_map map all_ok]. rewrite <- app_assoc. rewrite Hx.
-      unfold walk_spec, spec_text.
+      unfold walk_spec, spec_text_fd.
       destruct (json_of o de x) as [e|e|cc]; [|reflexivity|reflexivity].
       destruct (jexp_finite e) eqn:Efin.
       + rewrite IH by exact HF'.
@@ -380,7 +380,7 @@ Section LoopLemmas.
     walk_pairs o rec (length es) dk dv c (flat_map (fun e => encode (fst e) ++ encode (snd e)) es ++ r) =
     match keyed (map (fun e => key_of o (fst e)) es) (map (fun e => json_of o dv (snd e)) es) with
     | inr _ => None
-    | inl ms => if mem_finite ms then Some (obj_tail c (map pm ms), r) else None
+    | inl ms => if mem_finite ms then Some (obj_tail c (map (pm fd) ms), r) else None
     end.
   Proof.
     induction es as [|[k x] es IH]; intros c r HF.
@@ -388,7 +388,7 @@ Section LoopLemmas.
     - inversion HF as [|? ? [Hk Hx] HF']; subst. cbn [fst snd] in *.
       cbn [length walk_pairs flat_map map keyed fst snd]. rewrite <- !app_assoc. rewrite Hk.
       destruct (key_of o k) as [s|]; [|reflexivity].
-      rewrite Hx. unfold walk_spec, spec_text.
+      rewrite Hx. unfold walk_spec, spec_text_fd.
       destruct (json_of o dv x) as [e|e|cc]; [|reflexivity|reflexivity].
       destruct (jexp_finite e) eqn:Efin.
       + rewrite IH by exact HF'.
@@ -403,20 +403,21 @@ End LoopLemmas.
 
 (* ------------------------------------------------------------------ unfolding the walk *)
 Section Main.
+  Variable fd : Z -> list Z.
   Variable o : Z.
   Hypothesis Hvm : o_value_mapping o = false.
 
-  Lemma walk_scalar_eq n t bs : t2j_walk n o (DScalar t) bs = walk_scalar f64_exact_lexeme o t bs.
+  Lemma walk_scalar_eq n t bs : t2j_walk_gen fd o n (DScalar t) bs = walk_scalar fd o t bs.
   Proof. destruct n; reflexivity. Qed.
-  Lemma walk_string_eq n b bs : t2j_walk n o (DString b) bs = walk_string o b bs.
+  Lemma walk_string_eq n b bs : t2j_walk_gen fd o n (DString b) bs = walk_string o b bs.
   Proof. destruct n; reflexivity. Qed.
-  Lemma walk_struct_eq n fs bs : t2j_walk (S n) o (DStruct fs) bs =
-    match walk_fields o (t2j_walk n o) (S (length bs)) fs false (bm_init fs) bs with
+  Lemma walk_struct_eq n fs bs : t2j_walk_gen fd o (S n) (DStruct fs) bs =
+    match walk_fields o (t2j_walk_gen fd o n) (S (length bs)) fs false (bm_init fs) bs with
     | Some (t, r) => Some (123 :: t, r)
     | None => None
     end.
   Proof. reflexivity. Qed.
-  Lemma walk_map_eq n dk dv bs : t2j_walk (S n) o (DMap dk dv) bs =
+  Lemma walk_map_eq n dk dv bs : t2j_walk_gen fd o (S n) (DMap dk dv) bs =
     match bs with
     | kt :: vt :: r =>
       if negb (valid_ttype kt && valid_ttype vt) then None else
@@ -425,7 +426,7 @@ Section Main.
       | Some (sz, r2) =>
         if negb ((kt =? desc_type dk) && (vt =? desc_type dv)) then None
         else if sz >? zlen r2 then None
-        else match walk_pairs o (t2j_walk n o) (Z.to_nat sz) dk dv false r2 with
+        else match walk_pairs o (t2j_walk_gen fd o n) (Z.to_nat sz) dk dv false r2 with
              | Some (t, r3) => Some (123 :: t, r3)
              | None => None
              end
@@ -433,7 +434,7 @@ Section Main.
     | _ => None
     end.
   Proof. reflexivity. Qed.
-  Lemma walk_list_eq n s de bs : t2j_walk (S n) o (DList s de) bs =
+  Lemma walk_list_eq n s de bs : t2j_walk_gen fd o (S n) (DList s de) bs =
     match bs with
     | et :: r =>
       if negb (valid_ttype et) then None else
@@ -442,7 +443,7 @@ Section Main.
       | Some (sz, r2) =>
         if negb (et =? desc_type de) then None
         else if sz >? zlen r2 then None
-        else match walk_elems (t2j_walk n o) (Z.to_nat sz) de false r2 with
+        else match walk_elems (t2j_walk_gen fd o n) (Z.to_nat sz) de false r2 with
              | Some (t, r3) => Some (91 :: t, r3)
              | None => None
              end
@@ -464,7 +465,7 @@ Section Main.
   Definition WalkP (v : tval) : Prop :=
     forall d n r, wf v = true -> conforms v d = true -> desc_wf d = true ->
     (depth v <= n)%nat -> (depth v <= max_skip_depth)%nat ->
-    t2j_walk n o d (encode v ++ r) = walk_spec (json_of o d v) r.
+    t2j_walk_gen fd o n d (encode v ++ r) = walk_spec fd (json_of o d v) r.
 
   Ltac bad_conf Hc :=
     cbn [conforms type_of] in Hc; try discriminate Hc;
@@ -478,8 +479,8 @@ Section Main.
     desc_wf de = true ->
     (fold_right (fun e m => Nat.max (depth e) m) O es <= n)%nat ->
     (fold_right (fun e m => Nat.max (depth e) m) O es <= max_skip_depth)%nat ->
-    t2j_walk (S n) o (DList s de) ((et :: enc_int 4 (zlen es) ++ flat_map encode es) ++ r) =
-    walk_spec (match all_ok (map (json_of o de) es) with inl xs => TOk (EArr xs) | inr c => TErr c end) r.
+    t2j_walk_gen fd o (S n) (DList s de) ((et :: enc_int 4 (zlen es) ++ flat_map encode es) ++ r) =
+    walk_spec fd (match all_ok (map (json_of o de) es) with inl xs => TOk (EArr xs) | inr c => TErr c end) r.
   Proof.
     intros IH Hw Hc Hdw Hd Hs.
     destruct (good_elems_inv et es Hw Hs) as [Hlen Hgood].
@@ -491,10 +492,10 @@ Section Main.
     pose proof (flat_map_length_ge encode es encode_nonempty) as Hge.
     destruct (Z.gtb_spec (zlen es) (zlen (flat_map encode es ++ r))); [unfold zlen in *; rewrite app_length in *; lia|].
     rewrite to_nat_zlen.
-    rewrite (walk_elems_ok o (t2j_walk n o) de es false r).
-    - unfold walk_spec, spec_text.
+    rewrite (walk_elems_ok fd o (t2j_walk_gen fd o n) de es false r).
+    - unfold walk_spec, spec_text_fd.
       destruct (all_ok (map (json_of o de) es)) as [xs|]; [|reflexivity].
-      cbn [jexp_finite to_json]. destruct (forallb jexp_finite xs); [|reflexivity]. rewrite print_arr. reflexivity.
+      cbn [jexp_finite to_json_fd]. destruct (forallb jexp_finite xs); [|reflexivity]. rewrite print_arr. reflexivity.
     - pose proof (fold_max_le depth es n Hd) as Hdep.
       rewrite Forall_forall in *. intros e Hin r'.
       destruct (Hgood e Hin) as [_ [Hwe Hse]].
@@ -520,11 +521,11 @@ Section Main.
       pose proof (fold_max_le (fun f : Z * tval => depth (snd f)) vs n Hd) as Hdep.
       cbn [conforms] in Hc. rewrite forallb_forall in Hc.
       cbn [desc_wf] in Hdw. rewrite forallb_forall in Hdw.
-      rewrite (walk_fields_ok o (t2j_walk n o) fs vs).
-      + rewrite json_of_struct_eq. rewrite bm_missing_run. unfold walk_spec, spec_text.
+      rewrite (walk_fields_ok fd o (t2j_walk_gen fd o n) fs vs).
+      + rewrite json_of_struct_eq. rewrite bm_missing_run. unfold walk_spec, spec_text_fd.
         destruct (members_of (map (fstep o fs) vs)) as [ms|]; [|reflexivity].
         destruct (missing_required fs (map fst vs)); [destruct (mem_finite ms); reflexivity|].
-        cbn [jexp_finite to_json]. fold (mem_finite ms). destruct (mem_finite ms); [|reflexivity].
+        cbn [jexp_finite to_json_fd]. fold (mem_finite ms). destruct (mem_finite ms); [|reflexivity].
         rewrite print_obj. reflexivity.
       + rewrite Forall_forall in *. intros iv Hin.
         destruct (Hgood iv Hin) as [Hid [Hwx Hsx]]. split; [exact Hid|].
@@ -551,10 +552,10 @@ Section Main.
       destruct (Z.gtb_spec (zlen es) (zlen (flat_map (fun e : tval * tval => encode (fst e) ++ encode (snd e)) es ++ r)));
         [unfold zlen in *; rewrite app_length in *; lia|].
       rewrite to_nat_zlen.
-      rewrite (walk_pairs_ok o (t2j_walk n o) dk dv es false r).
-      + unfold walk_spec, spec_text. cbn [json_of].
+      rewrite (walk_pairs_ok fd o (t2j_walk_gen fd o n) dk dv es false r).
+      + unfold walk_spec, spec_text_fd. cbn [json_of].
         destruct (keyed (map (fun e => key_of o (fst e)) es) (map (fun e => json_of o dv (snd e)) es)) as [ms|]; [|reflexivity].
-        cbn [jexp_finite to_json]. fold (mem_finite ms). destruct (mem_finite ms); [|reflexivity].
+        cbn [jexp_finite to_json_fd]. fold (mem_finite ms). destruct (mem_finite ms); [|reflexivity].
         rewrite print_obj. reflexivity.
       + pose proof (fold_max_le (fun e : tval * tval => Nat.max (depth (fst e)) (depth (snd e))) es n Hd) as Hdep.
         rewrite Forall_forall in *. intros e Hin.
@@ -574,3 +575,149 @@ Section Main.
       cbn [encode json_of]. apply elems_case; auto. lia.
   Qed.
 End Main.
+
+(* ------------------------------------------------------------------ the instance of the theorems: exact decimal lexemes *)
+Lemma to_json_fd_exact : forall e, to_json_fd f64_exact_lexeme e = to_json e.
+Proof.
+  induction e as [b | z | b | s | e IH | s | z | xs IH | ms IH] using jexp_ind'; cbn [to_json_fd to_json]; try reflexivity.
+  - rewrite IH. reflexivity.
+  - f_equal. apply map_ext_in. intros x Hx. rewrite Forall_forall in IH. exact (IH x Hx).
+  - f_equal. apply map_ext_in. intros m Hm. rewrite Forall_forall in IH. rewrite (IH m Hm). reflexivity.
+Qed.
+
+Lemma spec_text_fd_exact t : spec_text_fd f64_exact_lexeme t = spec_text t.
+Proof. destruct t as [e|e|c]; cbn [spec_text_fd spec_text]; try reflexivity. rewrite to_json_fd_exact. reflexivity. Qed.
+
+Definition walk_res (t : tres) (r : list Z) : option (list Z * list Z) :=
+  match spec_text t with Some x => Some (x, r) | None => None end.
+
+Theorem walk_refines_exact o v d n r : o_value_mapping o = false ->
+  wf v = true -> conforms v d = true -> desc_wf d = true -> (depth v <= n)%nat -> (depth v <= max_skip_depth)%nat ->
+  t2j_walk n o d (encode v ++ r) = walk_res (json_of o d v) r.
+Proof.
+  intros Hvm Hw Hc Hdw Hd Hs. unfold t2j_walk. rewrite (walk_refines f64_exact_lexeme o Hvm v d n r Hw Hc Hdw Hd Hs).
+  unfold walk_spec, walk_res. rewrite spec_text_fd_exact. reflexivity.
+Qed.
+
+(* ------------------------------------------------------------------ corollaries *)
+Lemma json_of_not_exc o v : forall d e, json_of o d v <> TExc e.
+Proof.
+  intros d e H. destruct v; cbn [json_of] in H; try discriminate;
+  repeat match type of H with
+  | match ?x with _ => _ end = _ => destruct x; try discriminate
+  | (if ?b then _ else _) = _ => destruct b; try discriminate
+  end.
+Qed.
+
+(* the walk fails exactly when the spec has no text: the denotation is an error (unknown field under DisallowUnknownField,
+   unsupported map key type, missing required field) or the tree holds a NaN / Inf double *)
+Lemma spec_text_none o d v : spec_text (json_of o d v) = None <->
+  (exists c, json_of o d v = TErr c) \/ (exists e, json_of o d v = TOk e /\ jexp_finite e = false).
+Proof.
+  unfold spec_text. destruct (json_of o d v) as [e|e|c] eqn:E.
+  - destruct (jexp_finite e) eqn:Ef; split.
+    + discriminate.
+    + intros [[c H]|[e' [H1 H2]]]; [discriminate|]. inversion H1; subst. rewrite Ef in H2. discriminate.
+    + intros _. right. exists e. split; [reflexivity|exact Ef].
+    + reflexivity.
+  - exfalso. exact (json_of_not_exc o v d e E).
+  - split; [intros _; left; exists c; reflexivity | reflexivity].
+Qed.
+
+Theorem walk_error_iff o v d n r : o_value_mapping o = false ->
+  wf v = true -> conforms v d = true -> desc_wf d = true -> (depth v <= n)%nat -> (depth v <= max_skip_depth)%nat ->
+  (t2j_walk n o d (encode v ++ r) = None <->
+   (exists c, json_of o d v = TErr c) \/ (exists e, json_of o d v = TOk e /\ jexp_finite e = false)).
+Proof.
+  intros Hvm Hw Hc Hdw Hd Hs. rewrite (walk_refines_exact o v d n r Hvm Hw Hc Hdw Hd Hs).
+  rewrite <- spec_text_none. unfold walk_res. destruct (spec_text (json_of o d v)); split; intros H; try discriminate; reflexivity.
+Qed.
+
+(* never malformed with a nil error, at algorithm level: whatever the walk returns parses, with the proved parser,
+   to the JSON of the spec tree, and the walk has consumed exactly the encoding *)
+Theorem walk_output_valid o v d n r txt r' : o_value_mapping o = false ->
+  wf v = true -> conforms v d = true -> desc_wf d = true -> desc_ok d = true ->
+  (depth v <= n)%nat -> (depth v <= max_skip_depth)%nat ->
+  t2j_walk n o d (encode v ++ r) = Some (txt, r') ->
+  exists e, json_of o d v = TOk e /\ jexp_finite e = true /\
+            txt = json_print (to_json e) /\ json_parse txt = Some (to_json e) /\ r' = r.
+Proof.
+  intros Hvm Hw Hc Hdw Hdo Hd Hs H. rewrite (walk_refines_exact o v d n r Hvm Hw Hc Hdw Hd Hs) in H.
+  unfold walk_res, spec_text in H. destruct (json_of o d v) as [e|e|c] eqn:E; try discriminate.
+  destruct (jexp_finite e) eqn:Ef; [|discriminate]. inversion H; subst.
+  exists e. split; [reflexivity|]. split; [exact Ef|]. split; [reflexivity|]. split; [|reflexivity].
+  apply model_text_parses. exact (json_of_bytes o v d e Hw Hdo E).
+Qed.
+
+(* ------------------------------------------------------------------ the root: Do under the walk's options *)
+Lemma missing_required_known fs : forall ids,
+  missing_required fs (filter (fun id => match find_field fs id with Some _ => true | None => false end) ids) =
+  missing_required fs ids.
+Proof.
+  intros ids. unfold missing_required. apply existsb_ext_in. intros f Hin. f_equal. f_equal.
+  induction ids as [|id ids IH]; [reflexivity|]. cbn [filter existsb].
+  destruct (find_field fs id) eqn:Ef.
+  - cbn [existsb]. rewrite IH. reflexivity.
+  - rewrite IH. destruct (Z.eqb_spec id (f_id (fst f))) as [->|]; [|reflexivity].
+    exfalso. exact (find_field_of_in fs f Hin Ef).
+Qed.
+
+Lemma missing_required_perm fs a b : (forall x, In x a <-> In x b) -> missing_required fs a = missing_required fs b.
+Proof.
+  intros Hab. unfold missing_required. apply existsb_ext_in. intros f _. f_equal. f_equal.
+  destruct (existsb (fun id => id =? f_id (fst f)) a) eqn:Ea.
+  - apply existsb_exists in Ea. destruct Ea as (x & Hx & Hxe). symmetry. apply existsb_exists. exists x. split; [apply Hab; exact Hx|exact Hxe].
+  - destruct (existsb (fun id => id =? f_id (fst f)) b) eqn:Eb; [|reflexivity].
+    apply existsb_exists in Eb. destruct Eb as (x & Hx & Hxe).
+    assert (existsb (fun id => id =? f_id (fst f)) a = true) by (apply existsb_exists; exists x; split; [apply Hab; exact Hx|exact Hxe]).
+    congruence.
+Qed.
+
+Definition known_of (fs : list (fmeta * tdesc)) (ids : list Z) : list Z :=
+  filter (fun id => match find_field fs id with Some _ => true | None => false end) ids.
+
+(* the root loop of do is the struct loop of doRecurse when thrift base extraction and ConvertException are off
+   (error classes are not compared: both sides have no text) *)
+Lemma root_walk_plain_text o fs : o_value_mapping o = false -> o_thrift_base o && o_base_in_ctx o = false -> o_convert_exception o = false ->
+  forall vs acc seen bs,
+  spec_text (fst (root_walk o fs vs acc seen bs)) =
+  spec_text (match members_of (map (fstep o fs) vs) with
+             | inr c => TErr c
+             | inl ms => if missing_required fs (rev (known_of fs (map fst vs)) ++ seen) then TErr E_REQUIRED else TOk (EObj (rev acc ++ ms))
+             end).
+Proof.
+  intros Hvm Hb Hce. induction vs as [|[id x] vs IH]; intros acc seen bs.
+  - cbn [root_walk map members_of fst known_of filter rev app]. rewrite app_nil_r. reflexivity.
+  - cbn [root_walk map members_of fst]. unfold fstep at 1. cbn [fst snd]. unfold known_of. cbn [filter].
+    destruct (find_field fs id) as [f|] eqn:Ef.
+    + rewrite Hb, Hce. cbn [andb]. unfold field_value. rewrite Hvm. cbn [andb].
+      destruct (json_of o (snd f) x) as [e|e|c]; [|reflexivity|reflexivity].
+      rewrite IH. fold (known_of fs (map fst vs)).
+      destruct (members_of (map (fstep o fs) vs)) as [ms|]; [|reflexivity].
+      cbn [rev]. rewrite <- !app_assoc. reflexivity.
+    + destruct (o_disallow_unknown o); [reflexivity|]. rewrite IH. reflexivity.
+Qed.
+
+Theorem t2j_text_is_spec_text o d v : walk_opts o = true -> t2j_text o d v = spec_text (json_of o d v).
+Proof.
+  unfold walk_opts. rewrite !andb_true_iff, !negb_true_iff. intros [[Hvm Hb] Hce].
+  assert (Hfst : spec_text (fst (t2j_spec o d v)) = spec_text (json_of o d v)).
+  { unfold t2j_spec. destruct d as [t|b|fs|dk dv|s de]; try reflexivity.
+    destruct v as [ | | | | | | |vs| | | ]; try reflexivity.
+    rewrite (root_walk_plain_text o fs Hvm Hb Hce). rewrite (json_of_struct_eq o Hvm). rewrite app_nil_r.
+    destruct (members_of (map (fstep o fs) vs)) as [ms|]; [|reflexivity].
+    rewrite (missing_required_perm fs (rev (known_of fs (map fst vs))) (known_of fs (map fst vs))) by (intros x; symmetry; apply in_rev).
+    unfold known_of. rewrite missing_required_known. reflexivity. }
+  rewrite <- Hfst. unfold t2j_text, spec_text. destruct (fst (t2j_spec o d v)); reflexivity.
+Qed.
+
+(* Do (the whole input is the message): the walk's text is the model conversion's text *)
+Theorem walk_is_t2j_text o v d n : walk_opts o = true ->
+  wf v = true -> conforms v d = true -> desc_wf d = true -> (depth v <= n)%nat -> (depth v <= max_skip_depth)%nat ->
+  t2j_walk n o d (encode v) = match t2j_text o d v with Some txt => Some (txt, []) | None => None end.
+Proof.
+  intros Ho Hw Hc Hdw Hd Hs. rewrite (t2j_text_is_spec_text o d v Ho).
+  assert (Hvm : o_value_mapping o = false).
+  { unfold walk_opts in Ho. rewrite !andb_true_iff, !negb_true_iff in Ho. tauto. }
+  rewrite <- (app_nil_r (encode v)) at 1. exact (walk_refines_exact o v d n [] Hvm Hw Hc Hdw Hd Hs).
+Qed.
